@@ -54,6 +54,9 @@ func run(c *core.Ctx) {
 	idx := 0
 	runNest(c, &idx)
 	runArith(c, &idx)
+	floatLeaves = true // the same trees over decimal leaves (regrouping a chain of + or * shows only there)
+	runArith(c, &idx)
+	floatLeaves = false
 	runConsts(c, &idx)
 }
 
